@@ -174,6 +174,10 @@ def _len_is_one_guard(repo: Repo, f: Func, node: ast.AST, setexpr: ast.AST) -> b
                     return True
         if isinstance(t, ast.BoolOp) and isinstance(t.op, ast.And):
             return any(is_len1(v, True) for v in t.values)
+        if isinstance(t, ast.Name):
+            from ..util import single_value
+            v_ = single_value(f, t.id)         # a named boolean: `has_single_root = len(names) == 1`
+            return v_ is not None and not isinstance(v_, ast.Name) and is_len1(v_, True)
         return False
     for t, pol in guard_tests(node, f.node):
         if is_len1(t, pol):
@@ -272,6 +276,39 @@ def _classify_call_arg(repo: Repo, sf: SetFlow, f: Func, e: ast.AST, call: ast.C
                     return 'ok', f'{nm}(...) compared with a list of at most one element (order cannot matter)'
             if isinstance(pp, ast.Subscript) and pp.value is call and _len_is_one_guard(repo, f, call, e):
                 return 'ok', f'{nm}(...)[i] under a len == 1 guard'
+            # the same through a named local: `names = list(S)` whose every use is len(names), a truth test, sorted(names), a membership test,
+            # or names[i] under a `len(names) == 1` guard (a short-circuit `and` counts: the subscript is only evaluated after the test)
+            if isinstance(pp, ast.Assign) and len(pp.targets) == 1 and isinstance(pp.targets[0], ast.Name):
+                L = pp.targets[0].id
+                if len([a for a in f.walk() if isinstance(a, ast.Assign) and any(isinstance(t, ast.Name) and t.id == L for t in a.targets)]) == 1:
+                    uses = [u for u in f.walk() if isinstance(u, ast.Name) and u.id == L and isinstance(u.ctx, ast.Load)]
+
+                    def use_ok(u: ast.Name) -> bool:
+                        up = getattr(u, '_parent', None)
+                        if isinstance(up, ast.Call) and isinstance(up.func, ast.Name) and up.func.id in ('len', 'bool', 'sorted', 'set', 'frozenset', 'any', 'all') and u in up.args:
+                            return True
+                        if isinstance(up, ast.Compare) and u in up.comparators and isinstance(up.ops[0], (ast.In, ast.NotIn)):
+                            return True
+                        if isinstance(up, ast.Subscript) and up.value is u:
+                            if _len_is_one_guard(repo, f, up, u):
+                                return True
+                            # `len(L) == 1 and L[0] ...` in one expression
+                            x: ast.AST = up
+                            for q in parents(up):
+                                if isinstance(q, ast.BoolOp) and isinstance(q.op, ast.And):
+                                    idx = next((i for i, v in enumerate(q.values) if v is x), None)
+                                    if idx is not None:
+                                        from ..util import single_value
+                                        for v in q.values[:idx]:
+                                            vv = single_value(f, v.id) if isinstance(v, ast.Name) else v
+                                            if isinstance(vv, ast.Compare) and norm(vv) in (f'len({L}) == 1', f'1 == len({L})'):
+                                                return True
+                                if isinstance(q, ast.stmt):
+                                    break
+                                x = q
+                        return False
+                    if uses and all(use_ok(u) for u in uses):
+                        return 'ok', f'{nm}(...) bound to `{L}`, which is only measured, tested, sorted or indexed under a len == 1 guard'
         if nm == 'next' and _len_is_one_guard(repo, f, call, e):
             return 'ok', 'next(...) under a len == 1 guard'
         return 'bad', f'{nm}(...) exposes the iteration order'
@@ -292,9 +329,16 @@ def _classify_call_arg(repo: Repo, sf: SetFlow, f: Func, e: ast.AST, call: ast.C
                 if idx is not None and idx < len(ps):
                     pa = ps[idx]
             if pa is None or not ann_is_set(pa.annotation):
+                # not declared as a set: look at what the callee does with the parameter (one level): every use is order-insensitive
+                if pa is not None and depth < 2 and not isinstance(g.node, ast.Lambda):
+                    uses_g = [u for u in g.walk() if isinstance(u, ast.Name) and u.id == pa.arg and isinstance(u.ctx, ast.Load)]
+                    rebound = any(isinstance(a, (ast.Assign, ast.AugAssign)) and any(isinstance(t, ast.Name) and t.id == pa.arg
+                                                                                      for t in (a.targets if isinstance(a, ast.Assign) else [a.target])) for a in g.walk())
+                    if uses_g and not rebound and all(classify_use(repo, sf, g, u, depth + 1)[0] == 'ok' for u in uses_g):
+                        continue
                 ok_all = False
         if ok_all:
-            return 'ok', f'passed to {cal[0].name}() whose parameter is declared as a set'
+            return 'ok', f'passed to {cal[0].name}(), which takes a set or consumes its parameter order-insensitively'
         return 'bad', f'passed to {cal[0].qn}() whose parameter is not declared as a set: iteration order may leak'
     return 'stored', f'argument of {nm}()'
 
@@ -479,7 +523,8 @@ def run(repo: Repo, chk: Check, thorough: bool = False) -> None:
     chk.require('R18.3', 5)
     # buildtime is overridden before any page is built
     gs = repo.func('pydoctor.driver.get_system')
-    writes = [n for n in gs.walk() if isinstance(n, ast.Assign) and any(isinstance(t, ast.Attribute) and t.attr == 'buildtime' for t in n.targets)]
+    from ..util import scope_nodes, private_helper_of
+    writes = [n for n in scope_nodes(repo, gs) if isinstance(n, ast.Assign) and any(isinstance(t, ast.Attribute) and t.attr == 'buildtime' for t in n.targets)]
     env = [w for w in writes if 'SOURCE_DATE_EPOCH' in norm(w.value)]
     opt = [w for w in writes if 'options.buildtime' in norm(w.value) or 'buildtime' in norm(w.value) and 'strptime' in norm(w.value)]
     chk.ob('R18.3', 'pydoctor.driver.get_system :: SOURCE_DATE_EPOCH and --buildtime override the clock', bool(env) and bool(opt),
@@ -498,7 +543,8 @@ def run(repo: Repo, chk: Check, thorough: bool = False) -> None:
                 tgts = n.targets if isinstance(n, ast.Assign) else [n.target]
                 for t in tgts:
                     if isinstance(t, ast.Attribute) and t.attr == 'buildtime' and f.qn not in (
-                            'pydoctor.driver.get_system', 'pydoctor.model.System.__init__') and not f.mod.name.startswith('pydoctor.sphinx_ext'):
+                            'pydoctor.driver.get_system', 'pydoctor.model.System.__init__') and not f.mod.name.startswith('pydoctor.sphinx_ext') and \
+                            not private_helper_of(repo, f, 'pydoctor.driver.get_system'):
                         chk.ob('R18.3', f'{f.qn} :: writes buildtime', False, 'buildtime written outside System.__init__/driver.get_system',
                                repo.loc(f.mod, n))
 
